@@ -276,8 +276,10 @@ Theorem snapshot_loses_acked_writes :
              db_get ks (B "k1") = None /\ db_get ks (B "k2") = None /\ db_get ks (B "k3") = None /\
              db_get ks (B "k4") = Some (VStr (B "v")).
 Proof.
-  repeat split; try (vm_compute; reflexivity).
-  eexists. repeat split; vm_compute; reflexivity.
+  split; [vm_compute; reflexivity|]. split; [vm_compute; reflexivity|].
+  exists (match keyspace_of (restart 2 w_env (durable_of (crash w_after))) with
+          | Some k => k | None => empty_db end).
+  repeat split; vm_compute; reflexivity.
 Qed.
 
 (* any list key takes the node down when the threshold is reached *)
@@ -288,11 +290,16 @@ Definition w_list_readys : list (ready * list env) :=
 
 Theorem snapshot_with_list_panics :
   exists d a, run_readys 2 w_list_readys w_start = Down d a /\ a = [B "a"; B "k2"; B "k3"].
-Proof. eexists. eexists. split; vm_compute; reflexivity. Qed.
+Proof.
+  exists (durable_of (run_readys 2 w_list_readys w_start)), [B "a"; B "k2"; B "k3"].
+  split; vm_compute; reflexivity.
+Qed.
 
 (* the step order is what makes ack_implies_durable true: with the reply before wal.Save it fails *)
 Example readys_ok_witness : readys_ok 2 w_start w_readys.
 Proof.
+  assert (H : forall d e, ready_ok d (mkReady [e] (eidx e) [e])).
+  { intros d e x [<-|[]]. cbn [r_entries r_commit]. split; [apply in_or_app; right; left; reflexivity|lia]. }
   unfold w_readys, w_log. cbn [map number_log readys_ok].
-  repeat split; try (intros e [<-|[]]; split; [vm_compute; auto|vm_compute; discriminate]).
+  do 4 (split; [apply H|]). exact I.
 Qed.
